@@ -127,8 +127,9 @@ def stripSep : List String → List String
   | "--" :: r => r
   | l => l
 
-/-- `kernprof.main` up to `sys.argv = [options.script] + options.args` -/
-def parseCmd (table : List OptSpec) (args : List String) : Except Err Cmd :=
+/-- `kernprof.main` up to `sys.argv = [options.script] + options.args`; `abbr` is argparse's `allow_abbrev` (its default is
+    `True`; kernprof passes `False` since the repair of F-C15a) -/
+def parseCmdWith (abbr : Bool) (table : List OptSpec) (args : List String) : Except Err Cmd :=
   match pp args with
   | .error e => .error e
   | .ok (pre, some m, post) =>
@@ -140,9 +141,12 @@ def parseCmd (table : List OptSpec) (args : List String) : Except Err Cmd :=
     | .error e => .error e
     | .ok (_, []) => .error .noScript
     | .ok (o, s :: rest) =>
-      match firstAmbiguous table rest with
+      match (if abbr then firstAmbiguous table rest else none) with
       | some tok => .error (.ambiguous tok)
       | none => .ok { opts := o, isModule := false, target := s, argv := stripSep rest ++ post }
+
+/-- the parser as kernprof builds it: no abbreviations -/
+def parseCmd (table : List OptSpec) (args : List String) : Except Err Cmd := parseCmdWith false table args
 
 /-- what kernprof decides from its own options -/
 def Opts.lineByLine (o : Opts) : Bool := o.flags.contains "--line-by-line"
